@@ -50,6 +50,34 @@ pub struct NetCb {
     pub drawn: u8,
 }
 
+/// The environment refuses the next `fails` datagrams (a transient socket error): the
+/// datagram is lost and the call reports the error.
+pub struct FailCb<'a> {
+    pub inner: &'a mut NetCb,
+    pub fails: u8,
+}
+
+#[derive(Debug)]
+pub struct SendFailed;
+
+impl<'a> net::Callback<Addr> for FailCb<'a> {
+    type Error = SendFailed;
+    fn secure_random(&mut self, buffer: &mut [u8]) {
+        net::Callback::<Addr>::secure_random(self.inner, buffer)
+    }
+    fn send(&mut self, addr: Addr, data: &[u8]) -> Result<(), SendFailed> {
+        if self.fails > 0 {
+            self.fails -= 1;
+            return Err(SendFailed);
+        }
+        self.inner.out.push((addr, data.to_vec()));
+        Ok(())
+    }
+    fn time(&mut self) -> Timestamp {
+        net::Callback::<Addr>::time(self.inner)
+    }
+}
+
 fn random_for(addr: Addr, k: u8) -> [u8; 4] {
     [RANDOM_NET[0], RANDOM_NET[1], RANDOM_NET[2] ^ (addr + 1), RANDOM_NET[3].wrapping_add(k.wrapping_mul(17))]
 }
@@ -90,12 +118,14 @@ pub struct NCfg {
     /// how often the 32-bit peer id counter may come round to the smallest live peer id
     /// (what 2^32 - k connect/ignore pairs from other addresses do to it)
     pub wraps: u8,
+    /// the environment may refuse the close datagram of a disconnect (send error)
+    pub send_faults: bool,
 }
 
 impl NCfg {
     pub fn label(&self) -> String {
         format!(
-            "net accepting={} addrs{} rsend{} nsend{} drops{} adv{} garbage{} nconn{} disc{} cap{} pid0={} defer={} wraps={}",
+            "net accepting={} addrs{} rsend{} nsend{} drops{} adv{} garbage{} nconn{} disc{} cap{} pid0={} defer={} wraps={} send_faults={}",
             self.accepting,
             self.addrs,
             self.remote_sends,
@@ -108,7 +138,8 @@ impl NCfg {
             self.cap,
             self.start_peer_id,
             self.defer,
-            self.wraps
+            self.wraps,
+            self.send_faults
         )
     }
 }
@@ -137,6 +168,9 @@ pub enum NAct {
     NetSend(Addr, bool),
     NetFlush(Addr),
     NetDisconnect(Addr),
+    /// disconnect while the environment refuses the close datagram: the call reports the
+    /// error, the datagram is lost, the peer is gone all the same
+    NetDisconnectSendFails(Addr),
     /// the application decides about a pending peer it left undecided
     NetDecide(Addr, Policy),
     /// the peer id counter has come round: the next id it hands out is the smallest live one
@@ -530,10 +564,10 @@ impl NetM {
             Ok(f) => f,
             Err(p) => Some((panic_sig(&p), format!("panic: {}", p))),
         };
-        if let NAct::ToNet(..) | NAct::NetDecide(..) | NAct::NetConnect(_) | NAct::NetSend(..) | NAct::NetFlush(_) | NAct::NetDisconnect(_) = act {
+        if let NAct::ToNet(..) | NAct::NetDecide(..) | NAct::NetDisconnectSendFails(_) | NAct::NetConnect(_) | NAct::NetSend(..) | NAct::NetFlush(_) | NAct::NetDisconnect(_) = act {
             // the address of the (last) call of this step
             let a = match act {
-                NAct::NetConnect(a) | NAct::NetSend(a, _) | NAct::NetFlush(a) | NAct::NetDisconnect(a) => Some(a),
+                NAct::NetConnect(a) | NAct::NetSend(a, _) | NAct::NetFlush(a) | NAct::NetDisconnect(a) | NAct::NetDisconnectSendFails(a) => Some(a),
                 _ => None,
             };
             if let Some(a) = a {
@@ -897,6 +931,25 @@ impl NetM {
                 s.pids.remove(&a);
                 self.expect_same("disconnect", vec![], vec![], out, exp, true)
             }
+            NAct::NetDisconnectSendFails(a) => {
+                s.b.disconnects -= 1;
+                let pid = PeerId(s.pids[&a]);
+                let mut reported = false;
+                let (_, out) = self.net_call(s, a, |n, cb| {
+                    let mut f = FailCb { inner: cb, fails: 1 };
+                    reported = n.disconnect(&mut f, pid, b"net bye").is_err();
+                    vec![]
+                });
+                // the reference closes too; its close datagram is the one that was lost
+                let (_, exp) = self.ref_call(s, a, |e, cb, _| Ep::disconnect(e, cb, b"net bye"));
+                s.refs.remove(&a);
+                s.pids.remove(&a);
+                if !exp.is_empty() && !reported {
+                    return Some(("send-error-not-reported".into(), format!("disconnect of address {} did not report the failed send", a)));
+                }
+                let exp_after_loss: Vec<(Addr, Vec<u8>)> = exp.into_iter().skip(1).collect();
+                self.expect_same("disconnect-send-fails", vec![], vec![], out, exp_after_loss, true)
+            }
             NAct::NetTick => {
                 let (_, out) = self.net_call(s, 0, |n, cb| {
                     let errs: Vec<Infallible> = n.tick(cb).collect();
@@ -1053,6 +1106,9 @@ impl Model for NetM {
                     }
                 }
                 if s.b.disconnects > 0 && p.conn.state != 0 {
+                    if self.cfg.send_faults {
+                        out.push(NAct::NetDisconnectSendFails(a));
+                    }
                     out.push(NAct::NetDisconnect(a));
                 }
             } else if s.b.net_connects > 0 && s.rviews[au].state == 0 {
